@@ -87,7 +87,7 @@ var vhC09EnginePkg = []string{
 var vhC09ParamTypes = []string{"string", "int", "bool", "float64", "int64", "uint32", "Kind", "other.Kind", "Level", "*int", "*string", "*Kind", "[]string", "[]int", "[]Kind", "*bool", "float32"}
 
 // body types
-var vhC09BodyTypes = []string{"Model", "*Model", "other.Ext", "*other.Ext", "[]Model", "[]other.Ext", "string", "[]string", "map[string]Model", "Kind"}
+var vhC09BodyTypes = []string{"Model", "*Model", "other.Ext", "*other.Ext", "[]Model", "[]other.Ext", "string", "[]string", "map[string]Model", "Kind", "[][]Model", "[]*Model", "other.Kind", "int"}
 
 // result shapes: declaration and the matching return statement
 var vhC09Results = [][2]string{
@@ -104,10 +104,18 @@ var vhC09Results = [][2]string{
 	{"([]*Model, error)", "nil, nil"},
 	{"(int, error)", "0, nil"},
 	{"(other.Kind, error)", "other.KindA, nil"},
+	{"([][]Model, error)", "nil, nil"},
+	{"([][]other.Ext, error)", "nil, nil"},
+	{"(*other.Ext, error)", "nil, nil"},
+	{"(*Model, MyErr)", "nil, MyErr{}"},
+	{"(Model, *MyErr)", "Model{}, nil"},
+	{"MyErr", "MyErr{}"},
+	{"*MyErr", "nil"},
 }
 
 type vhC09Param struct {
 	name, loc, typ string
+	alias          string // the name in the schema (annotation option `name`), when not empty
 }
 
 type vhC09Route struct {
@@ -132,7 +140,11 @@ func vhC09Source(routes []vhC09Route) string {
 		sb.WriteString("// @Method(" + r.verb + ")\n// @Route(" + r.path + ")\n")
 		for _, p := range r.params {
 			if p.loc != "" { // a context.Context parameter is not annotated
-				sb.WriteString("// @" + p.loc + "(" + p.name + ")\n")
+				if p.alias != "" {
+					sb.WriteString("// @" + p.loc + "(" + p.name + ", { name: " + strconv.Quote(p.alias) + " })\n")
+				} else {
+					sb.WriteString("// @" + p.loc + "(" + p.name + ")\n")
+				}
 			}
 		}
 		if r.security {
@@ -327,7 +339,7 @@ func vhC09OneParam(engine, pt, loc int) {
 	if loc == 2 {
 		path = "/op/{p1}"
 	}
-	routes := []vhC09Route{{name: "Op", verb: "GET", path: path, params: []vhC09Param{{"p1", locs[loc], vhC09ParamTypes[pt]}}, result: 1}}
+	routes := []vhC09Route{{name: "Op", verb: "GET", path: path, params: []vhC09Param{{name: "p1", loc: locs[loc], typ: vhC09ParamTypes[pt]}}, result: 1}}
 	run, ok := vhC09Generate(routes, vhC09Config(engine, ""))
 	vhC09Finish(run, ok, "routes", engine, "Op")
 }
@@ -374,8 +386,9 @@ func vhC09Flag(name string) bool {
 }
 
 func vhC09Bodies(engine, body int) {
-	routes := []vhC09Route{{name: "Op", verb: "POST", path: "/op", params: []vhC09Param{{"payload", "Body", vhC09BodyTypes[body]}}, result: 0}}
+	routes := []vhC09Route{{name: "Op", verb: "POST", path: "/op", params: []vhC09Param{{name: "payload", loc: "Body", typ: vhC09BodyTypes[body]}}, result: 0}}
 	symxKnownFor("C09-map-typed-body-renders-invalid-go", "C09.file-is-syntactically-valid-go", strings.HasPrefix(vhC09BodyTypes[body], "map["))
+	symxKnownFor("C09-slice-of-pointers-body-loses-the-pointer", "C09.native.file-type-checks-against-engine-controllers-and-auth", strings.HasPrefix(vhC09BodyTypes[body], "[]*"))
 	run, ok := vhC09Generate(routes, vhC09Config(engine, ""))
 	vhC09Finish(run, ok, "routes", engine, "Op")
 }
@@ -409,8 +422,8 @@ func vh_C09_front_flags_Q() {
 		cfg.OpenAPIGeneratorConfig.SecuritySchemes = []definitions.SecuritySchemeConfig{{SecurityName: "sec", FieldName: "x-key", Type: "apiKey", In: "header"}}
 	}
 	routes := []vhC09Route{
-		{name: "Op", verb: "POST", path: "/op/{k}", params: []vhC09Param{{"k", "Path", "Kind"}, {"lvl", "Query", "Level"}, {"o", "Header", "other.Kind"}, {"m", "Body", "Model"}}, result: 1, security: secured},
-		{name: "List", verb: "GET", path: "/list", params: []vhC09Param{{"ks", "Query", "[]Kind"}}, result: 5},
+		{name: "Op", verb: "POST", path: "/op/{k}", params: []vhC09Param{{name: "k", loc: "Path", typ: "Kind"}, {name: "lvl", loc: "Query", typ: "Level"}, {name: "o", loc: "Header", typ: "other.Kind"}, {name: "m", loc: "Body", typ: "Model"}}, result: 1, security: secured},
+		{name: "List", verb: "GET", path: "/list", params: []vhC09Param{{name: "ks", loc: "Query", typ: "[]Kind"}}, result: 5},
 	}
 	want := "routes"
 	if cfg.RoutesConfig.PackageName != "" {
@@ -426,7 +439,7 @@ var vhC09Names = []string{"p1", "a_b", "aB", "Value", "value", "err", "controlle
 
 func vhC09ParamNames(nNames int, engine, n1, n2, l1, l2 int) {
 	locs := []string{"Query", "Header"}
-	routes := []vhC09Route{{name: "Op", verb: "GET", path: "/op", params: []vhC09Param{{vhC09Names[n1], locs[l1], "string"}, {vhC09Names[n2], locs[l2], "*int"}}, result: 1}}
+	routes := []vhC09Route{{name: "Op", verb: "GET", path: "/op", params: []vhC09Param{{name: vhC09Names[n1], loc: locs[l1], typ: "string"}, {name: vhC09Names[n2], loc: locs[l2], typ: "*int"}}, result: 1}}
 	// the handler declares <lowerCamel(name)>Raw / RawPtr per parameter: two names that differ only in what lower
 	// camel case erases would meet in one local, so such a project has to be refused (it was not: 9.4, fixed)
 	collide := strcase.ToLowerCamel(vhC09Names[n1]) == strcase.ToLowerCamel(vhC09Names[n2])
@@ -459,8 +472,8 @@ func vhC09Aliases(engine, pa, pb, ra, rb int) {
 	types := []string{"other.Ext", "Model", "*other.Ext", "[]other.Ext"}
 	results := []int{3, 1, 5}
 	routes := []vhC09Route{
-		{name: "A", verb: "POST", path: "/a", params: []vhC09Param{{"data", "Body", types[pa]}, {"kind", "Query", "other.Kind"}}, result: results[ra]},
-		{name: "B", verb: "PUT", path: "/b", params: []vhC09Param{{"data", "Body", types[pb]}, {"kind", "Header", "Kind"}}, result: results[rb]},
+		{name: "A", verb: "POST", path: "/a", params: []vhC09Param{{name: "data", loc: "Body", typ: types[pa]}, {name: "kind", loc: "Query", typ: "other.Kind"}}, result: results[ra]},
+		{name: "B", verb: "PUT", path: "/b", params: []vhC09Param{{name: "data", loc: "Body", typ: types[pb]}, {name: "kind", loc: "Header", typ: "Kind"}}, result: results[rb]},
 	}
 	run, ok := vhC09Generate(routes, vhC09Config(engine, ""))
 	vhC09Finish(run, ok, "routes", engine, "A", "B")
@@ -484,15 +497,15 @@ func vh_C09_front_context_Q() {
 	pos := symxChoice("ctxAt", 4) // 0: none, 1: first, 2: between, 3: last
 	body := vhC09Flag("body")
 	converted := vhC09Flag("converted")
-	second := vhC09Param{"p2", "Header", "string"}
+	second := vhC09Param{name: "p2", loc: "Header", typ: "string"}
 	if converted {
 		second.typ = "int"
 	}
-	params := []vhC09Param{{"p1", "Query", "string"}, second}
+	params := []vhC09Param{{name: "p1", loc: "Query", typ: "string"}, second}
 	if body {
-		params = append(params, vhC09Param{"m", "Body", "Model"})
+		params = append(params, vhC09Param{name: "m", loc: "Body", typ: "Model"})
 	}
-	ctx := vhC09Param{"ctx", "", "context.Context"}
+	ctx := vhC09Param{name: "ctx", loc: "", typ: "context.Context"}
 	switch pos {
 	case 1:
 		params = append([]vhC09Param{ctx}, params...)
@@ -512,10 +525,10 @@ func vh_C09_front_cross_T() {
 	body := symxChoice("body", len(vhC09BodyTypes))
 	res := symxChoice("result", len(vhC09Results))
 	pt := []int{1, 6, 7, 12}[symxChoice("ptype", 4)]                                                                  // int, Kind, other.Kind, []string
-	symxAssume(!strings.HasPrefix(vhC09BodyTypes[body], "map[") && !strings.HasPrefix(vhC09Results[res][0], "(map[")) // recorded findings, see the _Q harnesses
+	symxAssume(!strings.HasPrefix(vhC09BodyTypes[body], "map[") && !strings.HasPrefix(vhC09BodyTypes[body], "[]*") && !strings.HasPrefix(vhC09Results[res][0], "(map[")) // recorded findings, see the _Q harnesses
 	cfg := vhC09Config(engine, "")
 	cfg.RoutesConfig.ValidateResponsePayload = vhC09Flag("validateResponsePayload")
-	routes := []vhC09Route{{name: "Op", verb: "POST", path: "/op", params: []vhC09Param{{"q", "Query", vhC09ParamTypes[pt]}, {"payload", "Body", vhC09BodyTypes[body]}}, result: res}}
+	routes := []vhC09Route{{name: "Op", verb: "POST", path: "/op", params: []vhC09Param{{name: "q", loc: "Query", typ: vhC09ParamTypes[pt]}, {name: "payload", loc: "Body", typ: vhC09BodyTypes[body]}}, result: res}}
 	run, ok := vhC09Generate(routes, cfg)
 	vhC09Finish(run, ok, "routes", engine, "Op")
 }
@@ -525,9 +538,9 @@ func vh_C09_front_form_types_Q() {
 	engine := symxChoice("engine", 5)
 	pt := symxChoice("ptype", len(vhC09ParamTypes))
 	two := vhC09Flag("two")
-	params := []vhC09Param{{"f1", "FormField", vhC09ParamTypes[pt]}}
+	params := []vhC09Param{{name: "f1", loc: "FormField", typ: vhC09ParamTypes[pt]}}
 	if two {
-		params = append(params, vhC09Param{"f2", "FormField", "string"})
+		params = append(params, vhC09Param{name: "f2", loc: "FormField", typ: "string"})
 	}
 	routes := []vhC09Route{{name: "Op", verb: "POST", path: "/op", params: params, result: 1}}
 	run, ok := vhC09Generate(routes, vhC09Config(engine, ""))
@@ -539,12 +552,12 @@ func vh_C09_front_two_controllers_Q() {
 	engine := symxChoice("engine", 5)
 	res := symxChoice("result", 6)
 	body := symxChoice("body", 4)
-	params := []vhC09Param{{"id", "Path", "string"}}
+	params := []vhC09Param{{name: "id", loc: "Path", typ: "string"}}
 	if body > 0 {
-		params = append(params, vhC09Param{"data", "Body", []string{"", "Model", "other.Ext", "[]Model"}[body]})
+		params = append(params, vhC09Param{name: "data", loc: "Body", typ: []string{"", "Model", "other.Ext", "[]Model"}[body]})
 	}
 	routes := []vhC09Route{
-		{name: "Get", verb: "GET", path: "/get", params: []vhC09Param{{"q", "Query", "int"}}, result: 1},
+		{name: "Get", verb: "GET", path: "/get", params: []vhC09Param{{name: "q", loc: "Query", typ: "int"}}, result: 1},
 		{ctl: "Second", name: "Put", verb: "PUT", path: "/put/{id}", params: params, result: res},
 	}
 	run, ok := vhC09Generate(routes, vhC09Config(engine, ""))
@@ -558,7 +571,7 @@ func vh_C09_front_faults_E_Q() {
 	}
 	engine := symxChoice("engine", 5)
 	symxRealLibrary("raymond")
-	routes := []vhC09Route{{name: "Op", verb: "GET", path: "/op", params: []vhC09Param{{"q", "Query", "int"}}, result: 1}}
+	routes := []vhC09Route{{name: "Op", verb: "GET", path: "/op", params: []vhC09Param{{name: "q", loc: "Query", typ: "int"}}, result: 1}}
 	cfg := vhC09Config(engine, "")
 	fr, err := visitors.VhLoadSource(vhC09Source(routes), nil)
 	symxAssert(err == nil, "C09.fixture-compiles")
@@ -587,4 +600,36 @@ func vh_C09_front_faults_E_Q() {
 	} else {
 		symxCover("C09.faults.refused")
 	}
+}
+
+// names in the schema (the annotation's `name` option) are copied into string literals of the handler: whatever the
+// annotation grammar lets through has to stay inside its literal
+var vhC09SchemaNames = []string{"x-y", "x.y", "X_Y", "x y", "x[]", "x\"y", "x\\y", "x`y", "x{y}", "x%y", "é"}
+
+func vh_C09_front_schema_names_Q() {
+	engine := symxChoice("engine", 5)
+	n := symxChoice("schemaName", len(vhC09SchemaNames))
+	loc := symxChoice("loc", 2)
+	routes := []vhC09Route{{name: "Op", verb: "GET", path: "/op", params: []vhC09Param{{name: "p1", loc: []string{"Query", "Header"}[loc], typ: "int", alias: vhC09SchemaNames[n]}}, result: 1}}
+	run, ok := vhC09Generate(routes, vhC09Config(engine, ""))
+	if strings.ContainsAny(vhC09SchemaNames[n], "\"\\") {
+		// cannot be kept inside a string literal of the handler: has to be refused (it was not: 9.4, fixed)
+		symxAssert(!ok, "C09.schema-names-that-escape-a-string-literal-are-refused")
+		symxCover("C09.unwritable-schema-name")
+		return
+	}
+	vhC09Finish(run, ok, "routes", engine, "Op")
+}
+
+// route texts are copied into string literals too
+var vhC09RouteTexts = []string{"/a-b", "/a.b", "/a b", "/a\"b", "/a\\b", "/a`b", "/a%20b", "/é", "/a//b", "/a:b", "/*"}
+
+func vh_C09_front_route_texts_Q() {
+	engine := symxChoice("engine", 5)
+	n := symxChoice("route", len(vhC09RouteTexts))
+	routes := []vhC09Route{{name: "Op", verb: "GET", path: vhC09RouteTexts[n], result: 1}}
+	run, ok := vhC09Generate(routes, vhC09Config(engine, ""))
+	// a text the annotation grammar does not take leaves the method without a route (C01's subject): whether the
+	// handler exists is not asked here, only that whatever is written compiles
+	vhC09Finish(run, ok, "routes", engine)
 }
